@@ -43,6 +43,7 @@ type timed struct {
 	commitRound   int64
 	byzOldPropose map[int]*bft.Message
 	sentAttack    map[string]bool
+	planA         int // plan "two locks": the replica that locks alone (-1 = no plan)
 }
 
 type chaosPre struct {
